@@ -8,13 +8,24 @@ from sim import sched_sim as SS
 
 PROP = "C17"
 LEVEL = "exploration"
-RULE = ("(a) One case = one history of the real scheduler: (workers, steps, restart points) incl. "
-        "restarts with fewer remaining steps than workers, restarts without raising steps, repeated "
-        "restarts, crashes. Distinct = completion-order signature + exit pattern; non-trivial = more "
-        "than one incarnation or overlapping jobs.")
-ASSUMPTIONS = ["scheduler-level part: the runner is SimRunner; the real aiorunner is exercised by the "
-               "aio-sim part of this check"]
-REAL, STUB = C.REAL, C.STUB
+RULE = ("Three kinds of cases, interleaved: (a) one history of the real scheduler under SimRunner: "
+        "(workers, steps, restart points) incl. restarts with fewer remaining steps than workers, idle "
+        "restarts, repeated restarts, crashes; (b) the real aiorunner/future_list single-threaded under a "
+        "virtual-time event loop: 1-6 worker tasks, 0-40 units with durations from 0 to longer than every "
+        "timeout in the module, failing units, submit bursts, stop() with work queued or in flight, "
+        "stalled background thread; every scheduling decision (which loop turns, which completion fires) "
+        "is the kernel's; (c) full stack: real scheduler + real aiorunner + simulated executor. Distinct "
+        "= signature of the sequence of (event kind) turns / completion orders; non-trivial = >= 2 units "
+        "overlapped or a unit failed (b), several workers or incarnations (a, c).")
+ASSUMPTIONS = ["(b), (c): pre-emption granularity is 'between main-thread calls into the runner API and at "
+               "every blocking or polling call' - statement-level thread pre-emption inside asyncio.Queue "
+               "is not explored",
+               "process pool replaced by SimExecutor (completion at seeded virtual time, unit body run "
+               "in-process, pickle round trip in part c)"]
+REAL = C.REAL + ["infretis.asyncrunner.aiorunner and future_list (parts b, c), asyncio.Queue/Event/Task/"
+                  "sleep/run_in_executor and BaseEventLoop._run_once"]
+STUB = C.STUB + ["parts b, c: OS thread of the runner -> kernel-pumped pseudo-thread; selector -> null selector "
+                 "with virtual clock; ProcessPoolExecutor -> SimExecutor; time.sleep -> virtual sleep"]
 
 
 def budget(tier):
@@ -23,6 +34,17 @@ def budget(tier):
 
 def make_case(seed, i, tier):
     rng = random.Random(seed)
+    part = ["a", "b", "b", "a", "b", "c", "a", "b"][i % 8]
+    if part == "b":
+        from checks import c17b
+        return {"seed": seed, "part": "b", "wl": c17b.gen_workload(rng), "props": [PROP]}
+    if part == "c":
+        scn = SC.gen_scenario(rng, {"steps_choices": [3, 4, 6, 8], "n_intf_choices": [2, 3, 4],
+                                    "maxlength": 40, "screen": 0, "pattern": False})
+        scn["plan"] = C.gen_plan(rng, scn, rng.choice(["single", "tail", "clean_chain"]))
+        scn["plan"] = [p for p in scn["plan"] if "crash" not in p]
+        return {"seed": seed, "part": "c", "scn": scn, "props": [PROP],
+                "stall_p": rng.choice([0.0, 0.0, 0.2])}
     scn = SC.gen_scenario(rng, {"steps_choices": [2, 3, 4, 6, 8, 12], "n_intf_choices": [2, 3, 4, 5],
                                 "maxlength": rng.choice([20, 40, 200])})
     kind = rng.choice(["single", "tail", "tail", "clean_chain", "crash_chain", "mixed"])
@@ -35,9 +57,59 @@ def monitors(case, inc):
 
 
 def run(case):
+    part = case.get("part", "a")
+    if part == "b":
+        from checks import c17b
+        viol, info = c17b.run_workload(case)
+        wl = case["wl"]
+        return {"violations": viol, "trace": info["trace"], "digest": str(info["sig"]),
+                "probes": {"runner_lifecycles": 1, "units": info.get("executed", 0)},
+                "faults": info["faults"], "stats": {}, "sim_time": info["sim_time"],
+                "ksteps": info["ksteps"], "sig": "b" + str(info["sig"]),
+                "nontrivial": bool(info.get("overlap")) or any(u["fail"] for u in wl["units"]),
+                "sample": {"part": "b", "seed": case["seed"], "n_workers": wl["n_workers"],
+                           "pattern": wl["pattern"], "units": wl["units"][:10], "stop_s": info.get("t_stop")}}
+    if part == "c":
+        from checks import c17b
+        viol, infos = c17b.run_fullstack(case)
+        return {"violations": viol, "trace": [t for o in infos for t in o.get("trace", [])],
+                "digest": str([o.get("sig") for o in infos]),
+                "probes": {"fullstack_incarnations": len(infos)},
+                "faults": {}, "stats": {}, "sim_time": sum(o.get("sim_time", 0) for o in infos),
+                "ksteps": sum(o.get("ksteps", 0) for o in infos),
+                "sig": "c" + str([o.get("sig") for o in infos]),
+                "nontrivial": case["scn"]["workers"] > 1 or len(case["scn"]["plan"]) > 1,
+                "sample": {"part": "c", "seed": case["seed"], "workers": case["scn"]["workers"],
+                           "plan": case["scn"]["plan"],
+                           "incarnations": [{k: o.get(k) for k in ("start_cstep", "cstep", "submitted", "executed",
+                                                                    "max_running")} for o in infos]}}
     res = SS.run_case(case, monitors, history_checks=C.history_c17)
     res.pop("_c17", None)
     return C.result_from(res, case)
 
 
-shrink_candidates = C.shrink_candidates
+def shrink_candidates(case):
+    part = case.get("part", "a")
+    if part == "b":
+        wl = case["wl"]
+        units = wl["units"]
+        for i in range(len(units)):
+            yield dict(case, wl=dict(wl, units=units[:i] + units[i + 1:]))
+        if wl["n_workers"] > 1:
+            yield dict(case, wl=dict(wl, n_workers=wl["n_workers"] - 1))
+        for i, u in enumerate(units):
+            if u["dur"] > 0:
+                u2 = units[:i] + [dict(u, dur=0.0)] + units[i + 1:]
+                yield dict(case, wl=dict(wl, units=u2))
+            if u["fail"]:
+                u2 = units[:i] + [dict(u, fail=False)] + units[i + 1:]
+                yield dict(case, wl=dict(wl, units=u2))
+        if wl["stall_p"]:
+            yield dict(case, wl=dict(wl, stall_p=0.0))
+        if wl["pattern"] != "scheduler":
+            yield dict(case, wl=dict(wl, pattern="scheduler"))
+        return
+    for cand in C.shrink_candidates(case):
+        if part == "c" and any("crash" in p for p in cand["scn"]["plan"]):
+            continue
+        yield cand
